@@ -108,5 +108,14 @@ VARIABLE x
 Init == x = 0
 Next == UNCHANGED x
 Spec == Init /\ [][Next]_x
-Export == TLCGet("level") >= 0 /\ JsonSerialize(IOEnv.GX_OUT \o "/dists.json", [table |-> Table, extra |-> Extra])
+(* Batching law: parameters (and values) of two rows of one distribution stacked along a NEW LEADING axis denote the two rows
+   side by side - the log density of the batch is the row-wise log density (sum = lp_i + lp_j). Every distribution is a
+   lane-wise family over leading batch axes; normalisation, shifts and reductions act on the event axes only.
+   BatchPairs: the index pairs the harness stacks (a row with itself when a (distribution, call convention) has one row). *)
+BatchPairs == LET I == DOMAIN Table
+                  Same(i, j) == Table[i].dist = Table[j].dist /\ Table[i].how = Table[j].how
+              IN {<<i, j>> : i \in I, j \in I} \cap
+                 {pr \in I \X I : pr[1] <= pr[2] /\ Same(pr[1], pr[2])
+                                  /\ (pr[1] = pr[2] => ~\E k \in I : k # pr[1] /\ Same(k, pr[1]))}
+Export == TLCGet("level") >= 0 /\ JsonSerialize(IOEnv.GX_OUT \o "/dists.json", [table |-> Table, extra |-> Extra, pairs |-> SetToSeq(BatchPairs)])
 =============================================================================
